@@ -240,8 +240,8 @@ EnumEnvR(defs, k, acc, dm) ==
 EnumEnv(defs, dm) == EnumEnvR(defs, 1, <<>>, dm)
 
 (* ---- uses of the value ------------------------------------------------------------------- *)
-Reverse(s) == Mk([j \in 1..Len(s) |-> s[Len(s) + 1 - j]])
-Image(w, dm) == IF dm.be THEN Reverse(w) ELSE w
+RevBytes(s) == Mk([j \in 1..Len(s) |-> s[Len(s) + 1 - j]])
+Image(w, dm) == IF dm.be THEN RevBytes(w) ELSE w
 \* expectation record, the same shape for every site
 Exp(st, why, fl, bytes, amount, probes) ==
     [st |-> st, why |-> why, fl |-> fl, bytes |-> bytes, amount |-> amount, probes |-> probes]
